@@ -322,12 +322,20 @@ def StepS (ctx : Ctx) (root : State) (rootHash : UInt64) (workers depth : Nat) (
     Interleaving ctx root st.tt started H ∧
     st' = finishStep ctx root rootHash depth (drawSeeds workers st.rng).2 (joinOf ctx root st.tt started H polls') st
 
-/-- the deepening loop (`for depth in 0..max_depth` with `break`), every iteration under some schedule -/
+/-- the deepening loop (`for depth in 0..max_depth` with `break`), every iteration under some schedule.  The read of the
+flag at the top of the loop body (`boundaryPoll`, since the repair of F11) happens at an arbitrary poll number `p` — as
+for the workers, the flag may become visible to the search thread at any instant: `stopped` is the `break` at an
+iteration boundary with `depth > 0` (`boundaryPoll` cannot finish at `depth = 0`), `step` is an iteration run because
+the boundary read said "not cancelled" (or `depth = 0`). -/
 inductive LoopS (ctx : Ctx) (root : State) (rootHash : UInt64) (workersOf : Nat → Nat) : Nat → Nat → IterSt → IterSt → Prop
   | done (depth : Nat) (st : IterSt) : LoopS ctx root rootHash workersOf 0 depth st st
   | finished (n depth : Nat) (st : IterSt) : st.finished = true → LoopS ctx root rootHash workersOf (n + 1) depth st st
-  | step (n depth : Nat) (st st1 st2 : IterSt) : st.finished = false →
-      StepS ctx root rootHash (workersOf depth) depth st st1 →
+  | stopped (n depth : Nat) (st : IterSt) (p : Nat) : st.finished = false →
+      (boundaryPoll ctx depth { st with polls := p }).finished = true →
+      LoopS ctx root rootHash workersOf (n + 1) depth st (boundaryPoll ctx depth { st with polls := p })
+  | step (n depth : Nat) (st st1 st2 : IterSt) (p : Nat) : st.finished = false →
+      (boundaryPoll ctx depth { st with polls := p }).finished = false →
+      StepS ctx root rootHash (workersOf depth) depth (boundaryPoll ctx depth { st with polls := p }) st1 →
       LoopS ctx root rootHash workersOf n (depth + 1) st1 st2 → LoopS ctx root rootHash workersOf (n + 1) depth st st2
 
 /-- **`analyze_iterative` under arbitrary schedules**: `out` is a possible outcome of the search (`iterate` is the
